@@ -228,6 +228,10 @@ func checkURIPort(what string, uri []byte) string {
 		defer func() { recover() }() // crashes of ParseURI are C04's business (direct-call tasks)
 		e, _ = sipsp.ParseURI(uri, &pu)
 	}()
+	if e == 0 && pu.Port.Len == 0 && pu.PortNo != 0 {
+		// a number that points to no digit string at all
+		return fmt.Sprintf("%s URI %q reports PortNo=%d but no port text", what, uri, pu.PortNo)
+	}
 	if e != 0 || pu.Port.Len == 0 {
 		return ""
 	}
